@@ -138,6 +138,10 @@ func c05evalOne(c c05Case) (fs []ev.Finding, slashPoints int, ntoks int) {
 			rep("no-progress:"+name, fmt.Sprintf("token %d (%s) consumed nothing at rune %d", i, name, t.before))
 			break
 		}
+		// the runes a token consumed are the token: nothing more (a neighbour eaten), nothing less
+		if d := c05content(t, m); d != "" {
+			rep("content:"+name, fmt.Sprintf("token %d (%s %q) consumed %q: %s", i, name, t.lit, string(m.Runes[t.before:minInt(t.after, total)]), d))
+		}
 		// position = position of the token's first character
 		want := m.At[t.before]
 		if t.pos.Line != want.Line || t.pos.Char != want.Char {
@@ -178,6 +182,51 @@ func c05evalOne(c c05Case) (fs []ev.Finding, slashPoints int, ntoks int) {
 		rep("tiling:incomplete", fmt.Sprintf("tokens cover %d of %d runes", next, total))
 	}
 	return fs, sp, len(toks)
+}
+
+func minInt(a, b int) int {
+	if a < b {
+		return a
+	}
+	return b
+}
+
+// c05content compares the runes inside a token's extent with what the token says it is, for every token kind whose
+// spelling is determined by (token, literal): operators and punctuation, keywords, whitespace, bare identifiers,
+// numbers, durations, placeholders and illegal characters. Quoted forms, comments and regexes are skipped (escapes).
+func c05content(t c05tok, m *lexx.Model) string {
+	if t.after > len(m.Runes) || t.after < t.before {
+		return ""
+	}
+	got := string(m.Runes[t.before:t.after])
+	if strings.ContainsAny(got, "'\"\x00") {
+		return ""
+	}
+	switch t.tok {
+	case influxql.EOF, influxql.COMMENT, influxql.STRING, influxql.BADSTRING, influxql.BADESCAPE, influxql.REGEX, influxql.BADREGEX:
+		return ""
+	case influxql.WS, influxql.IDENT, influxql.INTEGER, influxql.DURATIONVAL, influxql.BOUNDPARAM:
+		if got != t.lit {
+			return fmt.Sprintf("the literal is %q", t.lit)
+		}
+	case influxql.NUMBER:
+		if got != t.lit && got != t.lit+"." {
+			return fmt.Sprintf("the literal is %q", t.lit)
+		}
+	case influxql.ILLEGAL:
+		if t.lit != "" && got != t.lit {
+			return fmt.Sprintf("the literal is %q", t.lit)
+		}
+	case influxql.NEQ:
+		if got != "!=" && got != "<>" {
+			return "not a spelling of !="
+		}
+	default:
+		if sp := t.tok.String(); sp != "" && !strings.EqualFold(got, sp) {
+			return fmt.Sprintf("the token's spelling is %q", sp)
+		}
+	}
+	return ""
 }
 
 // c05eval explores every combination of regex decisions for a text.
